@@ -103,6 +103,35 @@ fn main() {
                 fails.push(fail_json("stale_compiler_digest", &format!("request {} was keyed on compiler variant {} while variant {} was at the path (binaries with equal mtime have equal contents in this history)", i, ds[i], b.0), &[line.clone()], "")); break; } } }
         if samples.len() < 3 && swaps > 0 { samples.push(line.clone()); }
     }
-    std::fs::write(&a[3], format!("{{\"histories\":{},\"requests\":{},\"content_swaps\":{},\"histories_within_hypothesis\":{},\"redetections\":{},\"monitor_failures\":[{}],\"samples\":[{}]}}",
-        n_hist, reqs, swaps, in_hyp, redetections, fails.join(","), samples.iter().map(|s| jstr(s)).collect::<Vec<_>>().join(","))).unwrap();
+    // ---- phase 2: several *names* for compilers against one server.  `gcc` and `g++` are symbolic links to one multicall wrapper (as the
+    //      real drivers are links to one binary), `cc` is a third link to it, `alt/gcc` is a different file with the same file name.
+    //      Monitor: memoisation is transparent — in every history each request gets the key a fresh server computes for that name.
+    let multi = bindir.join("multicall-driver");
+    std::fs::write(&multi, "#!/bin/sh\nexec /usr/bin/$(basename \"$0\") \"$@\"\n").unwrap();
+    { use std::os::unix::fs::PermissionsExt; std::fs::set_permissions(&multi, std::fs::Permissions::from_mode(0o755)).unwrap(); }
+    let names_dir = tmp.path().join("names"); std::fs::create_dir_all(names_dir.join("alt")).unwrap();
+    let mut names: Vec<std::path::PathBuf> = vec![];
+    for n in ["gcc", "g++", "cc"] { let p = names_dir.join(n); std::os::unix::fs::symlink(&multi, &p).unwrap(); names.push(p); }
+    { let p = names_dir.join("alt/gcc"); std::fs::write(&p, "#!/bin/sh\n# another file called gcc\nexec /usr/bin/gcc \"$@\"\n").unwrap(); use std::os::unix::fs::PermissionsExt; std::fs::set_permissions(&p, std::fs::Permissions::from_mode(0o755)).unwrap(); names.push(p); }
+    let request_as = |svc: &sccache::server::SccacheService<ProcessCommandCreator>, kl: &Arc<KeyLog>, storage: &Arc<dyn Storage>, exe: &std::path::Path| -> Option<String> {
+        rt.block_on(async {
+            let compiler = svc.compiler_info(exe.to_path_buf(), cwd.clone(), &args, &env).await.ok()?;
+            let hasher = match compiler.parse_arguments(&args, &cwd, &env) { CompilerArguments::Ok(h) => h, _ => return None };
+            let n0 = kl.keys.lock().unwrap().len();
+            let _ = hasher.get_cached_or_compile(svc, None, creator.clone(), storage.clone(), args.clone(), cwd.clone(), env.clone(), CacheControl::Default, pool.clone()).await;
+            let k = kl.keys.lock().unwrap(); if k.len() > n0 { k.last().cloned() } else { None }
+        })
+    };
+    let fresh: Vec<Option<String>> = names.iter().map(|n| { let (kl, st, svc) = new_service(); request_as(&svc, &kl, &st, n) }).collect();
+    let mut name_reqs = 0u64;
+    for _ in 0..(n_hist / 4).max(3) {
+        let (kl, st, svc) = new_service(); let len = 3 + rnd(5) as usize; let mut seq = vec![];
+        for _ in 0..len { let i = rnd(names.len() as u64) as usize; let k = request_as(&svc, &kl, &st, &names[i]); name_reqs += 1;
+            seq.push(names[i].strip_prefix(&names_dir).unwrap().display().to_string());
+            if k != fresh[i] { fails.push(fail_json("memo_changes_key", &format!("after the requests [{}] on one server, the request through `{}` is keyed differently from the same request on a fresh server (the in-memory compiler entry of another name was used)", seq.join(", "), seq.last().unwrap()), &[seq.join(" ")], "")); break; } }
+    }
+    // distinct driver names must not collapse: gcc (C driver) and g++ (C++ driver) on the same .c file are different requests
+    if fresh[0].is_some() && fresh[0] == fresh[1] { fails.push(fail_json("driver_names_share_key", "gcc and g++ (links to one multicall wrapper) get the same key for a .c file on fresh servers", &[], "")); }
+    std::fs::write(&a[3], format!("{{\"name_requests\":{},\"histories\":{},\"requests\":{},\"content_swaps\":{},\"histories_within_hypothesis\":{},\"redetections\":{},\"monitor_failures\":[{}],\"samples\":[{}]}}",
+        name_reqs, n_hist, reqs, swaps, in_hyp, redetections, fails.join(","), samples.iter().map(|s| jstr(s)).collect::<Vec<_>>().join(","))).unwrap();
 }
